@@ -636,4 +636,13 @@ def check_make_from_dicts(ctx, rep):
         rep.ok("T-COLUMNS", "make_from_dicts:rows-unchanged", b.where(), "the record list is moved into Grid.rows without being modified")
     else:
         rep.bad("T-COLUMNS", "T-COLUMNS:make_from_dicts:rows-unchanged", b.where(touched[0][0]) if touched else b.where(), "the grid's rows are not the records as given (%s): records are dropped / reordered on the way into the grid" % (", ".join("rows.%s()" % x[1] for x in touched) or "Grid.rows is not the parameter"))
+    # one result: the grid assembled from the names - no special case that returns some other grid (an empty record list gives a grid
+    # without columns, not the placeholder grid with the column `empty`)
+    n += 1
+    results = b.defs().get(0, [])
+    other = [(bi, si) for bi, si, rv in results if si == "term" or rv["k"] != "agg"]
+    if len(results) == 1 and not other:
+        rep.ok("T-COLUMNS", "make_from_dicts:single-result", b.where(), "every path returns the grid assembled from the collected names")
+    else:
+        rep.bad("T-COLUMNS", "T-COLUMNS:make_from_dicts:single-result", b.where(other[0][0]) if other else b.where(), "make_from_dicts has %d ways of producing its result, one of them not the grid assembled from the record keys: for those inputs the columns are not the tag names of the records" % len(results))
     return n
